@@ -13,9 +13,9 @@ def config(cname, mname, tier, pid="C09"):
     an invariant would fall back to bounded unrolling (kind=bounded) with this bound"""
     from ..contracts.loop_invariants import LOOPS
 
-    if pid == "C19" and mname == "remove_atom":
-        # C19 only needs the rejected paths, which end before any loop: the remaining paths are explored with empty containers
-        return {"iter_bound": 0}
+    # (C19 used to explore remove_atom with empty containers only, on the grounds that a rejected request ends before any
+    # loop.  A seeded change moved the membership test of SCRG.remove_atom behind its purge loop: the rejected path then
+    # runs through the loop, so C19 verifies the loops with their invariants like C09 does.)
     return {"iter_bound": 1, "loop_contracts": LOOPS}
 
 
